@@ -1453,6 +1453,11 @@ func (vc *VC) siteHooks(st *State, key string, instr ssa.Instruction, before boo
 			if key != "dynamic:"+pat[1:] {
 				return false
 			}
+		} else if strings.HasSuffix(pat, "$") {
+			// name$: the callee's key ends with name (GetSingleton$ does not match GetSingletonNames)
+			if !strings.HasSuffix(key, pat[:len(pat)-1]) {
+				return false
+			}
 		} else if !strings.Contains(key, pat) {
 			return false
 		}
